@@ -214,6 +214,26 @@ def targeted_jobs(chk, cmp=CMP_SPEND):
             if typ.startswith("p2tr") and drop == "P2SH": continue
             c = SpendCase(rng, typ, "valid", 1, 0, 0)
             add("flags:%s:-%s" % (typ, drop), c.tx, c.funding, [f for f in STANDARD if f != drop])
+    # committed script hashes that differ from the spent script's in ONE bit, at every byte position (signature-free scripts, so that the
+    # hash comparison is the only thing that decides): P2SH, P2WSH, P2SH-wrapped P2WSH (both hashes)
+    for typ, ln in (("p2sh", 20), ("p2wsh", 32), ("p2sh-p2wsh", 20), ("p2sh-p2wsh-inner", 32)):
+        for pos in range(-1, ln):
+            ws = b"\x51"
+            if typ == "p2sh":
+                spk0 = btc.p2sh(ws)[0]; sig0 = push(ws); wit = []
+            elif typ == "p2wsh":
+                spk0 = btc.p2wsh(ws)[0]; sig0 = b""; wit = [ws]
+            else:
+                redeem = btc.p2wsh(ws)[0]
+                if typ.endswith("inner") and pos >= 0:
+                    redeem = redeem[:2 + pos] + bytes([redeem[2 + pos] ^ (1 << (pos % 8))]) + redeem[3 + pos:]
+                spk0 = btc.p2sh(redeem)[0]; sig0 = push(redeem); wit = [ws]
+            if pos >= 0 and not typ.endswith("inner"):
+                spk0 = spk0[:2 + pos] + bytes([spk0[2 + pos] ^ (1 << (pos % 8))]) + spk0[3 + pos:]
+            funding = btc.Tx(version=2, vin=[btc.TxIn(rb(rng, 32), 0, b"\x51", 0xffffffff)], vout=[btc.TxOut(70000, spk0)])
+            tx = btc.Tx(version=2, vin=[btc.TxIn(funding.txid(), 0, sig0, 0xffffffff)], vout=[btc.TxOut(60000, b"\x51")])
+            tx.witness = [wit]
+            add("hashbit:%s:%d" % (typ, pos), tx, funding)
     # P2SH with a scriptSig that is not push-only (consensus: SIG_PUSHONLY)
     for rep in range(3):
         c = SpendCase(rng, "p2sh", "valid", 1, 0, 0)
@@ -304,6 +324,24 @@ def targeted_jobs(chk, cmp=CMP_SPEND):
             r, sv = btc.ecdsa_sign(sec, btc.sighash_bip143(c.tx, 0, code, amt, 1), high_s=True)
             c.tx.witness[0] = [btc.der_encode(r, sv) + b"\x01", key]
             add("high-s:p2wpkh:%d:%s" % (rep, "lows" if "LOW_S" in fl else "nolows"), c.tx, c.funding, fl)
+    # witness v0 spends signed with an uncompressed (or hybrid) key: valid once WITNESS_PUBKEYTYPE is removed from the flags (STRICTENC also refuses
+    # hybrid keys), refused with the standard set
+    for comp, hyb in ((False, False), (False, True)):
+        for kf, fl in enumerate((STANDARD, [f for f in STANDARD if f != "WITNESS_PUBKEYTYPE"], [f for f in STANDARD if f not in ("WITNESS_PUBKEYTYPE", "STRICTENC")],
+                   [f for f in STANDARD if f not in ("WITNESS_PUBKEYTYPE", "NULLFAIL")])):
+            for typ in ("p2wpkh", "p2wsh"):
+                c = SpendCase(rng, typ, "valid", 1, 0, 0)
+                sec = rng.randrange(1, btc.N); key = btc.pubkey_create(sec, compressed=comp, hybrid=hyb)
+                amt = c.funding.vout[0].amount
+                if typ == "p2wpkh":
+                    spk = b"\x00\x14" + btc.hash160(key); code = b"\x76\xa9\x14" + btc.hash160(key) + b"\x88\xac"
+                else:
+                    code = push(key) + O("CHECKSIG"); spk = btc.p2wsh(code)[0]
+                c.funding.vout[0] = btc.TxOut(amt, spk)
+                c.tx.vin[0].prev_txid = c.funding.txid()
+                r, sv = btc.ecdsa_sign(sec, btc.sighash_bip143(c.tx, 0, code, amt, 1))
+                c.tx.witness[0] = [btc.der_encode(r, sv) + b"\x01"] + ([key] if typ == "p2wpkh" else [code])
+                add("keytype:%s:%s:%d" % (typ, "hybrid" if hyb else "uncompressed", kf), c.tx, c.funding, fl)
     # the argument of an executed OP_IF / OP_NOTIF: in tapscript it must be empty or 01 whatever the flags say; in witness v0 only with MINIMALIF
     for arg in (b"", b"\x01", b"\x02", b"\x01\x00", b"\x00"):
         for fl in (STANDARD, [f for f in STANDARD if f != "MINIMALIF"]):
